@@ -11,3 +11,48 @@ package grammar
 //@ props C14
 //@ order_only
 //@ loop 3: order_assumed only the emptiness of the result decides anything (generation is refused when it is non-empty); its order shows only in the diagnostic printed to stdout
+
+// ---------------------------------------------------------------------------------------------
+// C09: closure of an LR(0) item set
+
+//@ def wfRules(g *Grammar) = g != nil &&
+//@     (forall i int :: 0 <= i && i < len(g.ProductoinRules) ==> g.ProductoinRules[i] != nil && g.ProductoinRules[i].LeftPart != nil &&
+//@         (forall k int :: 0 <= k && k < len(g.ProductoinRules[i].RighPart) ==> g.ProductoinRules[i].RighPart[k] != nil))
+//@ def wfItem(g *Grammar, it item.Item) = 0 <= it.RuleIndex && it.RuleIndex < len(g.ProductoinRules) && 0 <= it.Dot && it.Dot <= len(g.ProductoinRules[it.RuleIndex].RighPart)
+// needs(g, it, r): the closure of an item set containing it must contain (r, 0)
+//@ def needs(g *Grammar, it item.Item, r int) = it.Dot < len(g.ProductoinRules[it.RuleIndex].RighPart) && g.ProductoinRules[it.RuleIndex].RighPart[it.Dot].IsNonTerminator &&
+//@     0 <= r && r < len(g.ProductoinRules) && g.ProductoinRules[r].LeftPart.ID == g.ProductoinRules[it.RuleIndex].RighPart[it.Dot].ID
+
+// the items (r, 0) for exactly the rules r whose left-hand side is the symbol after the dot
+//@ func (*Grammar).getItemCloure
+//@ props C09
+//@ results res
+//@ requires wfRules(g) && It != nil && wfItem(g, *It)
+//@ ensures [C09] forall k int :: 0 <= k && k < len(res) ==> res[k] != nil && fresh(res[k]) && res[k].Dot == 0 && needs(g, *It, res[k].RuleIndex)
+//@ ensures [C09] forall r int :: needs(g, *It, r) ==> (exists k int :: 0 <= k && k < len(res) && res[k].RuleIndex == r)
+//@ modifies nothing
+//@ allocates item.Item
+//@ loop 0: invariant forall k int :: 0 <= k && k < len(items) ==> items[k] != nil && fresh(items[k]) && items[k].Dot == 0 && needs(g, *It, items[k].RuleIndex)
+//@ loop 0: invariant forall r int :: 0 <= r && r < idx0 && needs(g, *It, r) ==> (exists k int :: 0 <= k && k < len(items) && items[k].RuleIndex == r)
+//@ loop 0: invariant unchanged(item.Item) && dotsym == g.ProductoinRules[It.RuleIndex].RighPart[It.Dot]
+
+// closure to fixpoint, then sorted by (rule, dot) so that equal sets compare equal position by position
+//@ def closedIC(g *Grammar, IC *item.ItemCloure) = forall i, r int :: 0 <= i && i < len(IC.Items) && needs(g, *IC.Items[i], r) ==>
+//@     (exists j int :: 0 <= j && j < len(IC.Items) && IC.Items[j].RuleIndex == r && IC.Items[j].Dot == 0)
+//@ def sortedIC(IC *item.ItemCloure) = forall i, j int :: 0 <= i && i < j && j < len(IC.Items) ==>
+//@     IC.Items[i].RuleIndex < IC.Items[j].RuleIndex || (IC.Items[i].RuleIndex == IC.Items[j].RuleIndex && IC.Items[i].Dot <= IC.Items[j].Dot)
+//@ def wfItems(g *Grammar, IC *item.ItemCloure) = forall i int :: 0 <= i && i < len(IC.Items) ==> wfItem(g, *IC.Items[i])
+
+//@ def okItems(g *Grammar, IC *item.ItemCloure) = IC != nil && (forall i int :: 0 <= i && i < len(IC.Items) ==> IC.Items[i] != nil && allocated(IC.Items[i]) && wfItem(g, *IC.Items[i]))
+
+//@ func (*Grammar).ComputeIClosure
+//@ props C09
+//@ requires wfRules(g) && okItems(g, IC)
+//@ ensures [C09] okItems(g, IC)
+//@ ensures [C09] sortedIC(IC)
+//@ allocates item.Item
+//@ loop 0: invariant okItems(g, IC)
+//@ loop 1: invariant okItems(g, IC) && IC.Items == before(IC.Items)
+//@ loop 1: invariant forall k int :: 0 <= k && k < len(items) ==> items[k] != nil && allocated(items[k]) && items[k].Dot == 0 && 0 <= items[k].RuleIndex && items[k].RuleIndex < len(g.ProductoinRules)
+//@ loop 2: invariant okItems(g, IC)
+//@ loop 2: invariant forall k int :: 0 <= k && k < len(items) ==> items[k] != nil && allocated(items[k]) && items[k].Dot == 0 && 0 <= items[k].RuleIndex && items[k].RuleIndex < len(g.ProductoinRules)
